@@ -699,6 +699,11 @@ structure Usage where
   pos : Pos
   expected : Option TRef
   locDefault : Bool
+  /-- The usage is nested inside a list or object literal that is given where a scalar type is
+      expected (a custom scalar accepting such literals): it has no expected type by design, and
+      §5.8.5 asks nothing of it. (Recorded for the correspondence with the implementation, which
+      distinguishes this from a position that has no type because of an error elsewhere.) -/
+  inScalar : Bool := false
 
 /-- Input object type whose fields type the fields of an object literal at a position of type `t`
     (through non-null and — list input coercion of a single item — list wrappers). -/
@@ -718,28 +723,56 @@ def itemType (t : Option TRef) : Option TRef :=
     | .list inner => some inner
     | _ => none
 
+/-- The type (non-null removed) is a scalar type. -/
+def nullableIsScalar (S : Schema) (t : Option TRef) : Bool :=
+  match t with
+  | none => false
+  | some t =>
+    match t.nullable with
+    | .named n => (match kindOf S n with
+                   | some (.scalar _) => true
+                   | _ => false)
+    | _ => false
+
+/-- The named type under all wrappers is a scalar type. -/
+def baseIsScalar (S : Schema) (t : Option TRef) : Bool :=
+  match t with
+  | none => false
+  | some t =>
+    match kindOf S t.base with
+    | some (.scalar _) => true
+    | _ => false
+
+/-- The items of a list literal at a position of type `t` belong to a literal for a scalar. -/
+def itemInScalar (S : Schema) (t : Option TRef) (sc : Bool) : Bool :=
+  (itemType t).isNone && (sc || nullableIsScalar S t)
+
+/-- The field values of an object literal at a position of type `t` belong to a literal for a scalar. -/
+def fieldInScalar (S : Schema) (t : Option TRef) (sc : Bool) : Bool :=
+  (objectTarget S t).isNone && (sc || baseIsScalar S t)
+
 mutual
-def usagesValue (S : Schema) (t : Option TRef) (locDefault : Bool) : Value → List Usage
-  | .var n p => [{ name := n, pos := p, expected := t, locDefault := locDefault }]
-  | .list items _ => usagesItems S (itemType t) items
-  | .obj fields _ => usagesFields S (objectTarget S t) fields
+def usagesValue (S : Schema) (t : Option TRef) (locDefault : Bool) (sc : Bool) : Value → List Usage
+  | .var n p => [{ name := n, pos := p, expected := t, locDefault := locDefault, inScalar := sc }]
+  | .list items _ => usagesItems S (itemType t) (itemInScalar S t sc) items
+  | .obj fields _ => usagesFields S (objectTarget S t) (fieldInScalar S t sc) fields
   | _ => []
-def usagesItems (S : Schema) (t : Option TRef) : List Value → List Usage
+def usagesItems (S : Schema) (t : Option TRef) (sc : Bool) : List Value → List Usage
   | [] => []
-  | v :: rest => usagesValue S t false v ++ usagesItems S t rest
-def usagesFields (S : Schema) (defs : Option (List InputDef)) : List ObjField → List Usage
+  | v :: rest => usagesValue S t false sc v ++ usagesItems S t sc rest
+def usagesFields (S : Schema) (defs : Option (List InputDef)) (sc : Bool) : List ObjField → List Usage
   | [] => []
   | .mk n _ v :: rest =>
     (match defs.bind (findInput · n) with
-     | some d => usagesValue S (some d.type) (d.dflt != .none) v
-     | none => usagesValue S none false v) ++ usagesFields S defs rest
+     | some d => usagesValue S (some d.type) (d.dflt != .none) false v
+     | none => usagesValue S none false sc v) ++ usagesFields S defs sc rest
 end
 
 def usagesArgs (S : Schema) (defs : Option (List InputDef)) (args : List Argument) : List Usage :=
   args.flatMap fun a =>
     match defs.bind (findInput · a.name) with
-    | some d => usagesValue S (some d.type) (d.dflt != .none) a.value
-    | none => usagesValue S none false a.value
+    | some d => usagesValue S (some d.type) (d.dflt != .none) false a.value
+    | none => usagesValue S none false false a.value
 
 def usagesDirs (S : Schema) (dirs : List Directive) : List Usage :=
   dirs.flatMap fun d => usagesArgs S ((S.findDirective d.name).map (·.args)) d.args
